@@ -466,23 +466,40 @@ class Run:
             # the default build is the oracle for the in-limit lists only (out-of-limit lists are
             # legal there and may be arbitrarily expensive)
             in_only = os.path.join(self.results, f"c14-{name}.in.cases")
-            open(in_only, "w").write("".join(l + "\n" for l in cases.strip().splitlines() if l.startswith("IN ")))
 
-            def run(binary, path):
+            def cheap_out(l):
+                # out-of-limit lists the default build can sign quickly (no tree above H10): its
+                # signature and public key are handed to the constrained build for verification
+                f = l.split()
+                return not l.startswith("IN ") and all(int(p.split("/")[0]) <= 10 for p in f[2].split(","))
+            open(in_only, "w").write("".join(l + "\n" for l in cases.strip().splitlines() if l.startswith("IN ") or cheap_out(l)))
+
+            def run(binary, path, extra_env=None):
                 with open(path) as f:
-                    e = dict(os.environ); e.update(self.env)
+                    e = dict(os.environ); e.update(self.env); e.update(extra_env or {})
                     try:
                         p = subprocess.run([binary, "c14-worker"], stdin=f, stdout=subprocess.PIPE, stderr=subprocess.PIPE, env=e, cwd=self.root, timeout=1500)
                     except subprocess.TimeoutExpired:
                         return None, "", "timeout"
                 return p.returncode, p.stdout.decode("utf-8", "replace"), p.stderr.decode("utf-8", "replace")
 
-            with ThreadPoolExecutor(2) as ex:
-                fd = ex.submit(run, default, in_only)
-                fc = ex.submit(run, binp, casefile)
-                (cd, td, ed), (cc, tc, ec) = fd.result(), fc.result()
+            cd, td, ed = run(default, in_only, {"VERIF_C14_EMIT_ARTIFACTS": "1"})
             if cd != 0:
                 raise Inconclusive("default-build c14 worker failed: " + str(ed)[-300:])
+            # hand the default build's artefacts to the constrained build, case by case
+            arts = {}
+            for l in td.strip().splitlines():
+                case, _, rest = l.partition(" | ")
+                for tok in rest.split():
+                    if tok.startswith("artifact="):
+                        sg, _, pk = tok[len("artifact="):].partition(":")
+                        arts[case] = (sg, pk)
+            td = "\n".join(" ".join(t for t in l.split(" ") if not t.startswith("artifact=")) for l in td.strip().splitlines())
+            with open(casefile, "w") as cf:
+                for l in cases.strip().splitlines():
+                    a = arts.get(l.strip())
+                    cf.write(l.strip() + (f" {a[0]} {a[1]}" if a else "") + "\n")
+            cc, tc, ec = run(binp, casefile)
             if cc is None:
                 raise Inconclusive(f"watchdog: c14 worker of configuration {name} exceeded its budget")
             by_case = {l.split(" | ")[0]: l for l in td.strip().splitlines()}
@@ -505,11 +522,20 @@ class Run:
                 f = case.split()
                 distinct.add((name, kind, f[1], f[2]))
                 replay = {"config": {"name": name, "levels": lv, "heights": hs, "winternitz": ws}, "case": case, "default_build": ld.split(" | ")[1][:2000], "constrained_build": lc.split(" | ")[1][:2000]}
+                for tok, v in toks_c.items():
+                    if tok.startswith("verify_foreign"):
+                        doc["counters"]["foreign_artefacts_verified"] = doc["counters"].get("foreign_artefacts_verified", 0) + 1
+                        if v.startswith("panic"):
+                            violation(f"C14:{name}:{kind}:{tok}:{v}", f"configuration {name}: verifying a signature and public key produced by the default build for the parameter list {f[2]} ({kind}) crashed: {v}", replay)
+                        elif kind == "IN" and not v.startswith("ok"):
+                            violation(f"C14:{name}:in_limit:{tok}:{f[1]}", f"configuration {name}: a signature produced by the default build for an in-limit parameter list ({f[2]}) is not accepted: {v}", replay)
                 if kind == "IN":
                     doc["counters"]["in_limit_cases"] = doc["counters"].get("in_limit_cases", 0) + 1
                     if not toks_d.get("keygen", "").startswith("ok") or not toks_d.get("sign", "").startswith("ok"):
                         doc["notes"].append(f"default build itself fails an in-limit case: {case}")
                     for tok in toks_d:
+                        if tok.startswith("artifact"):
+                            continue
                         if toks_c.get(tok) != toks_d[tok]:
                             violation(f"C14:{name}:in_limit:{tok}:{f[1]}", f"configuration {name}: {tok} of an in-limit parameter list ({f[2]}, {f[1]}) differs from the default build: {str(toks_c.get(tok))[:120]} vs {toks_d[tok][:120]}", replay)
                             break
